@@ -233,6 +233,12 @@ class ContractDB:
     def scan_assumptions(self):
         out = []
         for k, c in sorted(self.assumed.items()):
+            if k in self.contracts and self.contracts[k].options.get("standalone"):
+                out.append("call sites of %s use the clause of %s:%d, which is ALSO a postcondition of the proved contract of that "
+                           "function (%s:%d, written per structural case): %s" % (
+                               k, os.path.relpath(c.file, HERE), c.lineno, os.path.relpath(self.contracts[k].file, HERE),
+                               self.contracts[k].lineno, "; ".join(cl.text() for cl in c.ensures)[:200]))
+                continue
             out.append("assumed contract on external %s (%s:%d): %s" % (
                 k, os.path.relpath(c.file, HERE), c.lineno, "; ".join(cl.text() for cl in c.ensures)[:300]))
         return out
